@@ -133,7 +133,7 @@ def c11_jobs(tier):
 
 
 def c08_jobs(tier):
-    jobs = [J('detect', 'H_C08_fast', [w], stubs=['fast', 'tq_summary'], timeout_ms=180000) for w in (2, 1, 0)]
+    jobs = [J('detect', 'H_C08_fast', [w], stubs=['fast', 'tq_summary'], timeout_ms=180000, race=True) for w in (2, 1, 0)]
     jobs += [J('detect', 'H_C08_worker_step', [20, 12], stubs=['fast']), J('detect', 'H_C08_worker_step', [20, 15], stubs=['fast']),
              J('detect', 'H_C08_worker_step', [50, 15], stubs=['fast'])]
     if tier != 'quick':
@@ -402,7 +402,7 @@ PROPS = {
     'C08': {
         'jobs': c08_jobs,
         'technique': 'solver-based bounded checking of the real code under one sequentialised schedule + per-iteration disjointness obligations with a symbolic job index (bridge argument for the other schedules); go/ssa -> symbolic execution -> z3, models replayed natively with real goroutines',
-        'bounds': {'quick': 'the three Fast workflows at real sizes vs their sequential counterparts over all per-sample result matrices (scripted rounds), under ONE schedule (goroutines run to completion one after another at WaitGroup.Wait, W=2); one worker iteration with SYMBOLIC job indices i != j at sizes 20x12, 20x15, 50x15: only column i and the atomic counters are written',
+        'bounds': {'quick': 'the three Fast workflows at real sizes vs their sequential counterparts over all per-sample result matrices (scripted rounds), under ONE schedule (goroutines run to completion one after another at WaitGroup.Wait, W=2); one worker iteration with SYMBOLIC job indices i != j at sizes 20x12, 20x15, 50x15: only column i and the atomic counters are written; every plain store of a worker to memory shared with other workers must be made by at most one loop iteration per cell (otherwise: race obligation, replayed under the race detector)',
                    'thorough': 'same + periodic workflow with the real ThresholdQ inside'},
         'outside': 'other interleavings are NOT explored by the solver: schedule independence rests on the stated argument (identical workers; an iteration writes only column i - proven for symbolic i != j - and atomic counters; all writes precede Done in program order; the decision is a function of the final counters and columns; column contents do not depend on which job index a sample gets up to a permutation of rows, and the decision is permutation invariant by C12); the Go memory model below statement granularity; NumCPU workers > 2',
         'assumptions': ['source Read is atomic w.r.t. other Reads (granted by the property)', 'Round15/Round12 summarised by scripted symbolic results; ThresholdQ summarised in the quick tier (C12)', 'sync.WaitGroup / sync.Mutex / channels / atomic.AddInt32 modelled by their documented semantics'],
